@@ -8,7 +8,7 @@ For each property:
 
 RTRB = 'rtrb 0.3 is a linearizable SPSC FIFO: values accepted by Producer::push are returned by Consumer::pop exactly once and in order; is_abandoned()==true implies no further push (units/spsc/prelude.rs)'
 LOCK = 'collector cycles are mutually exclusive (handle_commands always runs under GLOBAL_COLLECTOR.lock(); parking_lot trusted)'
-TLS = 'COMMAND_SENDER is thread-local: only its owner thread calls Sender::send/force_send'
+TLS = 'COMMAND_SENDER is thread-local: only its owner thread calls Sender::send/force_send. The wrappers send_command / force_send_command are under contract with the thread-local made an explicit parameter (R23): thread_local lazy initialisation, LocalKey::try_with and the UnsafeCell dereference are NOT verified (teardown = the `alive == false` case)'
 
 LOCAL_ALL = '*'
 IDS_NONZERO = 'SpanId::next_id() returns a non-zero id (assumed in units/common/ids.rs; examined on the real next_id by the C02 Kani harness)'
@@ -28,7 +28,7 @@ API_SPLIT = 'Span::enter_with_parents is verified for 0 and 1 parents (the itera
 
 PROPS = {
     'C01': {
-        'verus': [('spsc', ['Sender::send', 'Sender::force_send', 'bounded', 'Receiver::try_recv']), ('coll', COLL_DELIVERY)],
+        'verus': [('spsc', ['Sender::send', 'Sender::force_send', 'bounded', 'Receiver::try_recv', 'send_command', 'force_send_command']), ('coll', COLL_DELIVERY)],
         'kani': ['root_lifecycle', 'finish_submits_sampled_items_only', 'local_parent_guard_scope'],
         'assumptions': [RTRB, TLS, LOCK, COLL_ENV, COLL_STD, REPORTER,
                         'NOT decided: "within about one report interval" and liveness of the background thread (time/liveness are outside contract verification); flush() runs one cycle after everything that happened-before it (structural)'],
@@ -104,7 +104,7 @@ PROPS = {
         'assumptions': [KANI_ENV, API_SPLIT, 'composition: no command carrying an unsampled item ever enters a queue (submit filter), so by the collector oracle no record of an unsampled trace is produced'],
     },
     'C07': {
-        'verus': [('local', '*'), ('spsc', ['Sender::send', 'Sender::force_send', 'Receiver::try_recv', 'bounded']), ('jaeger', '*')],
+        'verus': [('local', '*'), ('spsc', ['Sender::send', 'Sender::force_send', 'Receiver::try_recv', 'bounded', 'send_command', 'force_send_command']), ('jaeger', '*')],
         'kani': ['span_of_no_trace', 'noop_span_never_calls_closures', 'no_local_parent_is_inert', 'root_without_reporter_is_noop', 'empty_parent_set', 'root_lifecycle', 'cancel_root', 'local_parent_guard_scope', 'reentrant_property_closure', 'plain_property_closure', 'guard_beyond_scope_limit', 'next_id_formula_and_distinct'],
         'assumptions': [KANI_ENV, 'panic-freedom is proved per function / per state class listed; calls issued from inside property closures: harness reentrant_property_closure (fails: known finding D6) with its control plain_property_closure; NOT covered: deadlock freedom in general, and calls made while thread-local storage is being torn down (Kani has no TLS destructors)',
                         'non-blocking: Sender::send / force_send terminate (Verus decreases) and take no lock'],
@@ -132,12 +132,12 @@ PROPS = {
                         'per-call contract, complete per call'],
     },
     'C04': {
-        'verus': [('spsc', ['Sender::force_send', 'Sender::send', 'bounded', 'Receiver::try_recv']), ('coll', [H])],
+        'verus': [('spsc', ['Sender::force_send', 'Sender::send', 'bounded', 'Receiver::try_recv', 'send_command', 'force_send_command']), ('coll', [H])],
         'kani': ['cancel_root', 'finish_submits_sampled_items_only', 'root_without_reporter_is_noop'],
         'assumptions': [RTRB, TLS, LOCK],
     },
     'C09': {
-        'verus': [('spsc', ['Sender::force_send', 'Sender::send', 'bounded']),
+        'verus': [('spsc', ['Sender::force_send', 'Sender::send', 'bounded', 'send_command', 'force_send_command']),
                   ('local', ['SpanQueue::start_span', 'SpanQueue::add_event', 'SpanQueue::add_properties', 'SpanQueue::finish_span', 'SpanLine::start_span', 'LocalSpanStack::enter_span', 'LocalSpanStack::register_span_line']),
                   ('coll', ['amend_span'])],
         'kani': [],
